@@ -357,7 +357,10 @@ func (e *Evaluator) evalAssignment(assignment *parser.AssignmentStmt) error {
 	val = copyOrRef(val)
 	switch n := assignment.Target.(type) {
 	case *parser.Var:
-		e.scope.update(n.Name, val)
+		if !e.scope.update(n.Name, val) {
+			// A function called before the declaration of a global it assigns.
+			return newErr(n, fmt.Errorf("%w: %s", ErrVarNotSet, n.Name))
+		}
 		return nil
 	case *parser.IndexExpression:
 		return e.evalAssignIndexExpr(n, val)
